@@ -184,6 +184,89 @@ def failed_write_leaves_nothing_behind():
         check(sch._full_schedule is not old and sch._sched_ver == sch._global_ver, "a completed write caches the new schedule at the version read back")
 
 
+# -- the fetch loop with the real _update_payload_set, while the controller's schedule changes under it
+class VerGwy:
+    """The controller by contract: it answers the fragment asked for from the version of the schedule
+    it holds at that exchange (the version changes at most once during the transfer, at any point)."""
+
+    def __init__(self, change_after, totals):
+        self.change_after, self.totals, self.exchanges = change_after, totals, 0
+
+    async def async_send_cmd(self, cmd, **kwargs):
+        self.exchanges += 1
+        if self.exchanges > 8:
+            assume(False)  # (bounded: a transfer of <= 3+3 fragments with one change needs at most 7)
+        ver = 1 if self.exchanges <= self.change_after else 2
+        frag_num = cmd[1]
+        self.last_total = self.totals[ver]
+        if self.totals[ver] == 0:  # this version of the zone has no schedule
+            return {"frag_number": frag_num, "total_frags": None, "fragment": None}
+        if frag_num > self.totals[ver]:
+            raise exc.ProtocolSendFailed("no such fragment in this version: no reply")
+        return {"frag_number": frag_num, "total_frags": self.totals[ver], "fragment": ("ver", ver)}
+
+
+class VerMsg:
+    def __init__(self, pkt):
+        self.payload = pkt
+
+
+def ver_fragment_cmd_stub(cls, ctl_id, idx, frag_num, size):
+    return ("RQ|0404", frag_num)
+
+
+class FakeZone:
+    def __init__(self, idx, tcs, gwy):
+        self.id, self.idx, self.ctl, self.tcs, self._gwy = "01:145038_" + idx, idx, FakeCtl(), tcs, gwy
+
+
+def ver_fragz_to_full_sched_stub(fragments):
+    """Contract of fragz_to_full_sched on a full set: the schedule if every fragment is of one version,
+    else zlib.error -- zlib rejects a blob stitched from two versions (assumption A12)."""
+    vers = [f[1] for f in fragments]
+    if any(v != vers[0] for v in vers):
+        raise S.zlib.error("incorrect data check")
+    return {"zone_idx": "01", "schedule": ["days"], "version": vers[0]}
+
+
+@harness("C18", cases=[(n, t1, t2) for n in (0, 1, 2, 3) for t1 in (0, 1, 2, 3) for t2 in (0, 1, 2, 3)],
+         quick=lambda n, t1, t2: (n, t1, t2) in ((0, 1, 1), (0, 2, 2), (2, 2, 2), (3, 3, 3), (1, 1, 1), (2, 3, 2), (3, 2, 3), (2, 1, 1), (2, 2, 1), (0, 0, 0), (2, 0, 2), (2, 2, 0)),
+         stubs={S.fragz_to_full_sched: ver_fragz_to_full_sched_stub, S.Message: VerMsg,
+                S.Command.get_schedule_fragment: ver_fragment_cmd_stub})
+def fetch_survives_a_change_on_the_controller(n, t1, t2):
+    """Schedule._get_schedule with the real _update_payload_set / _proc_payload_set, from any fragment
+    set left behind by earlier transfers or eavesdropping (n slots, each empty or holding a fragment
+    of an older or of the current version; n == 0: the zone still has the module's EMPTY_PAYLOAD_SET,
+    as after __init__), while the controller's schedule changes at most once at any exchange
+    (t1 -> t2 fragments): the transfer ends with a schedule of ONE version or with a protocol error --
+    never a stitched schedule, never a RuntimeError/StopIteration from a full-but-unprocessed set --
+    and the empty set shared with the other zones is left as it was."""
+    tcs = FakeTcs()
+    set_global(S, "EMPTY_PAYLOAD_SET", [None])
+    init = []
+    for i in range(n):
+        k = sym_choice(f"slot_{i}", ["empty", "stale", "current"])
+        init.append(None if k == "empty" else {"frag_number": i + 1, "total_frags": n, "fragment": ("ver", 0 if k == "stale" else 1)})
+    gwy = VerGwy(sym_int("change_after", 0, 8), {1: t1, 2: t2})
+    sch = S.Schedule(FakeZone("01", tcs, gwy))  # the real constructor: a zone that has not fetched anything yet
+    other = S.Schedule(FakeZone("02", tcs, gwy))
+    if n:
+        sch._payload_set = init
+    o = outcome(sch._get_schedule, force_io=True)
+    check(tcs.zone_lock_idx is None, "no zone lock is left behind by _get_schedule, however it ends")
+    check(o.ok or isinstance(o.exc, (exc.ProtocolError, TimeoutError, asyncio.CancelledError)),
+          "a transfer ends with a schedule or a protocol error (not a RuntimeError from a full but unprocessed fragment set)")
+    check(And(get_global(S, "EMPTY_PAYLOAD_SET") == [None], other._payload_set == [None]),
+          "nothing is written to the module's empty fragment set, nor to the fragment set of a zone that has fetched nothing yet")
+    if o.ok:
+        cover("transfer completed")
+        if gwy.last_total == 0:
+            check(sch._full_schedule == {"zone_idx": "01"}, "a completed transfer for a zone without a schedule holds the empty schedule")
+        else:
+            check(sch._full_schedule.get("version") in (1, 2), "a completed transfer holds a schedule of one version of the controller's")
+        check(sch._sched_ver == sch._global_ver, "at the change counter read during the transfer")
+
+
 def _releases_in_finally(fn, obtain="_obtain_lock", release="_release_lock"):
     """Syntactic: every statement that follows the `await ..._obtain_lock(...)` statement in the
     function body is a Try whose finalbody calls ..._release_lock(), or comes after such a Try."""
